@@ -73,7 +73,12 @@ def end_to_end(chk, fam, text, nmodes, symm, variant, pairs, zs, ns, negl_of=Non
     G = {(int(t[1]), int(t[2])): t for t in r.get("impl", "G")}
     GC = {(int(t[1]), int(t[2])): t for t in r.get("impl", "GC")}
     GN = {(int(t[1]), int(t[2])): t for t in r.get("impl", "GN")}
-    GCP = {(int(t[1]), int(t[2])): t for t in r.get("impl", "GCOPY")}      # the same values read from a copy of the GreensFunction object
+    # the same values read from copies of the GreensFunction object: a plain copy of the computed object (GCOPY), that copy after
+    # prepare(); compute() on it (GCOPYRUN), and a copy taken before prepare() and run afterwards (GCOPY0)
+    GCPS = [(tag, what, {(int(t[1]), int(t[2])): t for t in r.get("impl", tag)}) for tag, what in (
+        ("GCOPY", "read from a COPY of the GreensFunction object"),
+        ("GCOPYRUN", "read from a COPY of the computed GreensFunction object after prepare(); compute() on the copy"),
+        ("GCOPY0", "read from a COPY taken before prepare(), prepared and computed afterwards"))]
     OG = {(int(t[1]), int(t[2])): t for t in r.get("oracle", "G")}
     OGN = {(int(t[1]), int(t[2])): t for t in r.get("oracle", "GN")}
     for k, (i, j) in enumerate(pairs):
@@ -91,10 +96,12 @@ def end_to_end(chk, fam, text, nmodes, symm, variant, pairs, zs, ns, negl_of=Non
             else:
                 drop, merge, abssum = 1e-6, 0.0, abs(vo)
             pts.append(("z=%r" % (complex(*z),), vi, vc, vo, drop, merge, abssum))
-            if (i, j) in GCP:
-                vcp = L.cplx(GCP[(i, j)], 4 + 2 * q)
-                if vcp != vi and not (abs(vcp - vi) <= 1e-14 * (1.0 + abs(vi))):
-                    fails.append((i, j, "container", "z=%r (read from a COPY of the GreensFunction object)" % (complex(*z),), vcp, vi, 1e-14 * (1.0 + abs(vi))))
+            for tag, what, GCP in GCPS:
+                if (i, j) in GCP:
+                    vcp = L.cplx(GCP[(i, j)], 4 + 2 * q)
+                    if vcp != vi and not (abs(vcp - vi) <= 1e-14 * (1.0 + abs(vi))):
+                        fails.append((i, j, "container", "z=%r (%s)" % (complex(*z), what), vcp, vi, 1e-14 * (1.0 + abs(vi))))
+                        break
         bn = bnl[k] if k < len(bnl) else None
         for q, n in enumerate(ns):
             vi, vo = L.cplx(GN[(i, j)], 4 + 3 * q), L.cplx(OGN[(i, j)], 4 + 3 * q)
